@@ -99,6 +99,17 @@ func (s *swamp) PatchExpired(howMany int32, ops []msgpackpatch.Op, condition *ms
 		_ = s.expirationTimeBeaconDESC.SortByExpirationTimeDesc()
 	}
 
+	// A selected treasure may have been deleted by another request between the selection and this
+	// point. A delete removes the key from beaconKey first and from the indexes afterwards, so a key
+	// that is gone from beaconKey now must not stay in the expiration indexes (it was just re-added),
+	// and one that disappears later is removed from them by its own delete.
+	for _, t := range selected {
+		if !s.beaconKey.IsExists(t.GetKey()) {
+			s.expirationTimeBeaconASC.Delete(t.GetKey())
+			s.deleteTreasureIfBeaconInitialized(s.expirationTimeBeaconDESC, t.GetKey())
+		}
+	}
+
 	return results, capReached, nil
 }
 
